@@ -283,6 +283,26 @@ class Collide(SubCheck):
     unit_test = CmdSeq.unit_test
 
 
+class LongRuns(CmdSeq):
+    """implicit repetition with three and five argument groups (the first, second and last group of a run are the ones
+    special-cased by hand-written loops), after a move and after a curve / close, followed by one more command"""
+    name = "long-runs"
+
+    def __init__(self, svg, tier, seed):
+        self.svg = svg
+        nonz = [l for l in pc.LETTERS if l not in "Zz"]
+        parts = []
+        for dev in (pc.REPEAT3, pc.REPEAT5):
+            parts.append(Product([(l, pc.PLAIN) for l in "Mm"], [(l, dev) for l in nonz]))
+            parts.append(Product([(l, dev) for l in "Mm"], [(l, pc.PLAIN) for l in pc.LETTERS]))
+            parts.append(Product([(l, pc.PLAIN) for l in "Mm"], [(l, pc.PLAIN) for l in "qcZl"], [(l, dev) for l in nonz],
+                                 [(l, pc.PLAIN) for l in "lTsz"]))
+        self.space = Concat(*parts)
+        self.builder = pc.Builder(seed)
+        self.builder2 = pc.Builder(seed, flagshift=2)
+        self.bounds = dict(groups=[3, 5])
+
+
 class Magnitudes(CmdSeq):
     """the command sequences again with every coordinate scaled by 1e-9 and by 1e9 (exponent spellings): absolute
     epsilons or decimal roundings in the coordinate arithmetic show at the small end, lost digits at the large end"""
@@ -406,7 +426,8 @@ class BuilderApi(SubCheck):
 
 
 def build(tier, seed, svg):
-    return [CmdSeq(svg, tier, seed), Collide(svg, tier), Magnitudes(svg, tier, seed), BuilderApi(svg, tier, seed), Tokens(svg, tier)]
+    return [CmdSeq(svg, tier, seed), Collide(svg, tier), LongRuns(svg, tier, seed), Magnitudes(svg, tier, seed),
+            BuilderApi(svg, tier, seed), Tokens(svg, tier)]
 
 
 def m_smooth_other_degree(d):
